@@ -29,10 +29,10 @@ def demo():
         return sh(f"bash {src}/demo.sh")
     if mode == 'tree':
         return sh(f'sh {src}/demo.sh {wt}')
-    rc, out = sh('go build -o /tmp/.seed_goawk .', cwd=wt)
+    rc, out = sh('go build -o /tmp/.seed_goawk_' + sid + ' .', cwd=wt)
     if rc != 0:
         return 99, out
-    return sh(f'sh {src}/demo.sh /tmp/.seed_goawk')
+    return sh(f'sh {src}/demo.sh /tmp/.seed_goawk_' + sid + '')
 res = {'id': sid, 'property': pid, 'confirmed_at': time.strftime('%Y-%m-%dT%H:%M:%SZ', time.gmtime())}
 sh(['git', '-C', wt, 'checkout', '-q', '--', '.'])
 head = sh(['git', '-C', '/repo', 'rev-parse', 'HEAD'])[1].strip()
